@@ -118,6 +118,20 @@ fn bls_point_program(rng: &mut Rng) -> (T, T) {
     (prog, T::nil())
 }
 
+/// a softfork guard (extension 0, 1 or 2) around a small body whose declared cost is *not* what the
+/// body costs: an aware node must reject it (or, for an unknown extension, charge the declared cost),
+/// whatever hard-fork flags are set
+fn misdeclared_guard(rng: &mut Rng) -> (T, T) {
+    let body = match rng.below(3) {
+        0 => quote(int(42)),
+        1 => call(16, vec![quote(int(1)), quote(int(2))]),
+        _ => call(11, vec![quote(atom(b"abc"))]),
+    };
+    let ext = *rng.pick(&[0i128, 1, 1, 2]);
+    let declared = 100 + rng.below(2000);
+    (call(36, vec![quote(int(declared as i128)), quote(int(ext)), quote(body), quote(atom(&[]))]), T::nil())
+}
+
 /// 4-byte operators around the secp256k1/secp256r1 opcodes (same cost multiplier, every value of the
 /// last byte's cost-function and padding bits) on valid and corrupted signature triples
 pub fn secp4_program(rng: &mut Rng) -> (T, T) {
@@ -136,7 +150,13 @@ pub fn secp4_program(rng: &mut Rng) -> (T, T) {
         4 => op[3] = 0xc0 | rng.below(64) as u8,
         _ => op[2] ^= 1 << rng.below(8),
     }
-    let prog = T::pair(T::Atom(op), T::list(vec![quote(T::Atom(pkc)), quote(T::Atom(msg)), quote(T::Atom(sig))]));
+    let args = match rng.below(8) {
+        0 => vec![],
+        1 => vec![quote(T::Atom(pkc)), quote(T::Atom(msg))],
+        2 => vec![quote(int(1)), quote(int(2)), quote(int(3))],
+        _ => vec![quote(T::Atom(pkc)), quote(T::Atom(msg)), quote(T::Atom(sig))],
+    };
+    let prog = T::pair(T::Atom(op), T::list(args));
     let prog = if rng.chance(1, 3) { call(4, vec![prog, quote(int(7))]) } else { prog };
     (prog, T::nil())
 }
@@ -206,8 +226,12 @@ pub fn oracle(name: &str, rng: &mut Rng, n: usize, tier: &str) -> OracleReport {
             garbage_program(rng)
         } else if name == "repr" && i % 4 == 1 {
             bls_point_program(rng)
+        } else if name == "repr" && i % 4 == 2 {
+            progs::random_path_program(rng)
         } else if name == "hide" && i % 5 == 1 {
             secp4_program(rng)
+        } else if name == "hide" && i % 5 == 2 {
+            misdeclared_guard(rng)
         } else {
             random_program(rng, 30, name != "runtime")
         };
@@ -215,7 +239,7 @@ pub fn oracle(name: &str, rng: &mut Rng, n: usize, tier: &str) -> OracleReport {
             prog = progs::mutate(rng, &prog);
         }
         let flags = match name {
-            "hide" => random_flags(rng) & !(NO_UNKNOWN_OPS | NEW_COST_MODEL),
+            "hide" => (random_flags(rng) & !(NO_UNKNOWN_OPS | NEW_COST_MODEL)) | if i % 5 == 2 && i % 2 == 0 { 0x100 } else { 0 },
             "runtime" => random_flags(rng) & !(ENABLE_GC | DISABLE_OP),
             _ => random_flags(rng),
         };
